@@ -409,7 +409,16 @@ class SR:
         return SR(sqrt_atom(s.e), tag=('sqrt', s.e))
 
     def __format__(s, spec):
-        return TOK.make(s)
+        # '', 'r', 's' and >= 17 significant digits print a double so that float() gives it back (the model float(repr(x)) == x);
+        # any other float presentation ('g', '.3f', ...) rounds: the printed literal stands for an unknown function of the value
+        if spec in ('', 'r', 's'):
+            return TOK.make(s)
+        import re as _re
+        m = _re.fullmatch(r'(?:.?[<>=^])?[-+ ]?#?0?\d*[,_]?(?:\.(\d+))?([eEfFgGn%])?', spec)
+        if m and m.group(2) in ('e', 'E', 'g', 'G') and m.group(1) is not None and int(m.group(1)) >= 17:
+            return TOK.make(s)
+        f = z3.Function('formatted_' + _re.sub(r'[^0-9A-Za-z]', '_', spec), z3.RealSort(), z3.RealSort())
+        return TOK.make(SR(f(s.e)))
 
     def __str__(s):
         return TOK.make(s)
